@@ -771,6 +771,9 @@ class Fxp():
                 self.scaled = True # update scaled flag
 
         if self.scaled and not raw:
+            if val.dtype.kind == 'u':
+                # unsigned inputs: removing the bias must not wrap at zero (nor refuse a negative bias)
+                val = val.astype(np.int64) if val.size == 0 or np.max(val) < 2**63 else val.astype(object)
             if self.bias != 0:
                 val = val - self.bias
             if self.scale != 1:
